@@ -200,6 +200,9 @@ fn e2e_case(r: &mut Rng, allow_empty_frames: bool, res: &mut CaseResult) {
     let fm: usize = *r.pick(&[4096usize, 4096, 8192, 131072]);
     let mut reflex = Reflex::default();
     reflex.tune = (2047, fm as u32, 0);
+    // consumer tags are unique per channel only: in a third of the runs every channel
+    // uses the same tags
+    reflex.per_channel_tags = r.chance(1, 3);
     let nch = r.usize(1, 6);
     // plan
     let mut plans: Vec<ChanPlan> = Vec::new();
